@@ -38,10 +38,11 @@ type c26Case struct {
 	Plus     bool   `json:"plus"`
 	Count    uint32 `json:"count"`
 	DirCache bool   `json:"dircache"`
+	DirCount uint32 `json:"dircount,omitempty"` // READDIRPLUS dircount hint when it differs from maxcount (0: same as Count)
 }
 
 func (c c26Case) strings() []string {
-	return []string{fmt.Sprintf("dir with name lengths %v; plus=%v count=%d dircache=%v", c.NameLens, c.Plus, c.Count, c.DirCache)}
+	return []string{fmt.Sprintf("dir with name lengths %v; plus=%v count=%d dircount=%d dircache=%v", c.NameLens, c.Plus, c.Count, c.DirCount, c.DirCache)}
 }
 
 func nameOfLen(i, l int) string {
@@ -100,7 +101,12 @@ func judgeC26(c c26Case) []Violation {
 	for page := 0; page < 2000; page++ {
 		var res NfsRes
 		if c.Plus {
-			_, res = w.nfs(17, cred, argReaddirplus(dh, cookie, verf, c.Count, c.Count))
+			// maxcount bounds the reply; dircount is only a hint about the names (Linux clients send about maxcount/8)
+			dc := c.Count
+			if c.DirCount != 0 {
+				dc = c.DirCount
+			}
+			_, res = w.nfs(17, cred, argReaddirplus(dh, cookie, verf, dc, c.Count))
 		} else {
 			_, res = w.nfs(16, cred, argReaddir(dh, cookie, verf, c.Count))
 		}
@@ -234,6 +240,9 @@ func checkC26(r *Result, rng *rand.Rand, thorough bool) {
 			c.Count = uint32(rng.Intn(3000))
 		} else {
 			c.Count = counts[rng.Intn(len(counts))]
+		}
+		if c.Plus && rng.Intn(2) == 0 {
+			c.DirCount = []uint32{c.Count/8 + 1, 8, 150, 1 << 20, c.Count*4 + 1}[rng.Intn(5)]
 		}
 		run(c)
 		if i < 2 {
